@@ -351,6 +351,10 @@ func runC03(c *Ctx) {
 	checkOpaqueUDT(c, "R03g", []string{pSqlite})
 	c.Rule("R03k", ruleTextNoBackslash, 1)
 	checkNoBackslashInSqlite(c, "R03k")
+	c.Rule("R03r", ruleTextTrimOrder, 1)
+	checkTrimOrder(c, "R03r")
+	c.Rule("R03q", ruleTextScanOrder, 2)
+	checkScanOrder(c, "R03q")
 	c.Rule("R03p", ruleTextExclusiveArms, 0)
 	checkExclusiveArms(c, "R03p")
 	c.Rule("R03o", ruleTextAutoincShapes, 2)
